@@ -95,16 +95,17 @@ Definition l_action (s : lst) (a : cact) : lst :=
   end.
 Definition l_actions (s : lst) (l : list cact) : lst := fold_left l_action l s.
 
-(* which walk: the dispatch of a signal (born before the walk: number below bound), on_sigchld
-   (waitpid), process_notify (the watches registered after their child's exit) *)
-Inductive wkind := WSig (sig : Z) (bound : Z) | WChild | WNotify.
+(* which walk: the dispatch of a signal, on_sigchld (waitpid), process_notify (the watches
+   registered after their child's exit); a walk passes over the watches registered while it is
+   under way (born during it: number not below bound, the counter when the walk began) *)
+Inductive wkind := WSig (sig : Z) (bound : Z) | WChild (bound : Z) | WNotify (bound : Z).
 
 (* does the walk invoke w, with which x; the oracle's table afterwards *)
 Definition ltest (k : wkind) (exits : list (Z * Z)) (w : cw) : option (Z * list (Z * Z)) :=
   match k with
   | WSig sig bound => if (c_key w =? sig) && (c_id w <? bound) then Some (sig, exits) else None
-  | WChild => if c_ex w then None else reap (c_key w) exits
-  | WNotify => if c_ex w then Some (c_st w, exits) else None
+  | WChild bound => if c_ex w || negb (c_id w <? bound) then None else reap (c_key w) exits
+  | WNotify bound => if c_ex w && (c_id w <? bound) then Some (c_st w, exits) else None
   end.
 
 Fixpoint l_walk (k : wkind) (ids : list Z) (s : lst) : lst :=
@@ -129,12 +130,12 @@ Fixpoint l_walk (k : wkind) (ids : list Z) (s : lst) : lst :=
 Definition l_dispatch (k : wkind) (s : lst) : lst := l_walk k (map c_id (l_chain s)) s.
 
 Fixpoint l_notifies (n : nat) (s : lst) : lst :=
-  match n with O => s | S n' => l_notifies n' (l_dispatch WNotify s) end.
+  match n with O => s | S n' => l_notifies n' (l_dispatch (WNotify (l_next s)) s) end.
 
 Definition l_op (s : lst) (o : cop) : lst :=
   match o with
   | KAct a => l_action s a
-  | KWalk arg => if proc then l_dispatch WChild s else l_dispatch (WSig arg (l_next s)) s
+  | KWalk arg => if proc then l_dispatch (WChild (l_next s)) s else l_dispatch (WSig arg (l_next s)) s
   | KExit key st => mkL (l_chain s) (l_exits s ++ [(key, st)]) (l_sched s) (l_next s) (l_iter s) (l_log s)
   | KTick =>
       let s1 := mkL (l_chain s) (l_exits s) O (l_next s) (l_iter s + 1) (OPoll 0 :: l_log s) in
@@ -299,7 +300,7 @@ Definition h_dispatch (fuel : nat) (k : wkind) (h : hcs) : option hcs := h_walk 
 Fixpoint h_notifies (fuel : nat) (n : nat) (h : hcs) : option hcs :=
   match n with
   | O => Some h
-  | S n' => match h_dispatch fuel WNotify h with Some h' => h_notifies fuel n' h' | None => None end
+  | S n' => match h_dispatch fuel (WNotify (Z.of_nat (length (c_hp h)))) h with Some h' => h_notifies fuel n' h' | None => None end
   end.
 
 Definition h_cop (fuel : nat) (oh : option hcs) (o : cop) : option hcs :=
@@ -308,7 +309,8 @@ Definition h_cop (fuel : nat) (oh : option hcs) (o : cop) : option hcs :=
   | Some h =>
       match o with
       | KAct a => h_caction h a
-      | KWalk arg => if proc then h_dispatch fuel WChild h else h_dispatch fuel (WSig arg (Z.of_nat (length (c_hp h)))) h
+      | KWalk arg => if proc then h_dispatch fuel (WChild (Z.of_nat (length (c_hp h)))) h
+                     else h_dispatch fuel (WSig arg (Z.of_nat (length (c_hp h)))) h
       | KExit key st => Some (mkHc (c_hp h) (c_chain h) (c_cursor h) (c_live h) (c_exits h ++ [(key, st)]) (c_sched h) (c_iter h) (c_log h))
       | KTick =>
           h_notifies fuel (c_sched h)
